@@ -272,6 +272,16 @@ def run(ctx):
                 for k_ in ('f64', 'u64'):
                     if k_ in ty:
                         fmt_types.add(k_)
+    # ... and by nothing else: a literal text produced in the serializer (or in a helper it calls, which is inlined) in place of a formatted
+    # number is a hand-written formatter (`if v.is_infinite() { "INF" }` loses the sign of -INF)
+    lit_fmt = []
+    for x in P.with_closures(si):
+        for pos, t in x.iter_calls():
+            if call_matches(t, r'ToString>::to_string$|::to_string$|ToOwned>::to_owned$|String as .*From<&str>>::from$') and t['args'] and 'l' in t['args'][0]:
+                ty = (x.local_ty(t['args'][0]['l']) or '')
+                if ty.replace('&', '').replace("'static ", '').strip() == 'str':
+                    lit_fmt.append(x.where(pos))
+    C.check(not lit_fmt, 'C20-SIB-format', 'serialize_internal|no-literal-number-text', 'CharacterData::serialize_internal (or a helper of it) emits a literal text where a value is formatted: a hand-written number formatter can lose information (e.g. the sign of -INF written as "INF")', lit_fmt[0] if lit_fmt else '')
     C.check({'f64', 'u64'} <= fmt_types, 'C20-SIB-format', 'serialize_internal|f64-and-u64-through-std-to_string', 'CharacterData::serialize_internal does not format both numeric kinds with the std to_string directly (found %s): a hand-written formatter can lose information (e.g. the sign of -INF)' % sorted(fmt_types),
             '%s:%d' % (si.file, si.line), sample={'fn': 'serialize_internal', 'std_formatted_kinds': sorted(fmt_types)})
     # typed parse: the locals that receive the parse results have types u64 / f64
